@@ -23,7 +23,7 @@ func init() {
 	core.Register(&core.Rule{
 		ID:    "R06.5",
 		Title: "lenient client keeps the partially filled value",
-		Text: "In DoAndUnmarshal and unmarshalReturnEntityKey the only statement that clears err is dominated by the successful assertion to *MissingRequiredFieldsError and by !StrictResponseDeserialization, and the decoded value is what the function then returns.",
+		Text:  "In DoAndUnmarshal and unmarshalReturnEntityKey the only statement that clears err is dominated by the successful assertion to *MissingRequiredFieldsError and by !StrictResponseDeserialization, and the decoded value is what the function then returns.",
 		Props: []string{"C06"},
 		Floor: map[string]int{"v2": 2, "root": 2},
 		Run:   runR065,
